@@ -191,6 +191,7 @@ StepResult(st, o, c, sc) ==
             ELSE IF o.oc = "ok" /\ ~Uniform(o.val) THEN "the value is not uniform / well formed"
             ELSE IF Has(o, "second_failed") THEN "two evaluations in the same state differ: the first one gave a value, the second one failed (" \o o.name \o ")"
             ELSE IF o.oc = "ok" /\ Has(o, "val2") /\ ~VSame(o.val, o.val2) THEN "two evaluations in the same state differ"
+            ELSE IF Has(st, "must_err") THEN (IF o.oc = "runtime_error" THEN "" ELSE "an out-of-range argument did not raise an error: " \o o.oc)
             ELSE IF Has(st, "wanterr") THEN
                  (IF o.oc = "runtime_error" /\ o.name = st.wanterr THEN "" ELSE "expected the error " \o st.wanterr \o ", got " \o o.oc \o " " \o Fld(o, "name", ""))
             ELSE IF Has(st, "want") THEN
